@@ -84,10 +84,33 @@ def do_call(g, c):
     raise AssertionError(k)
 
 
+_SHARED = {}
+_COUNT = [0]
+
+
+def used_factory(kind, edges):
+    """every second graph is built by a factory instance that has built other graphs before - the previous graphs of the
+    run and, right before this one, a look-alike (same number of nodes, same first and last node, the nodes in between
+    at other indices): construction must depend on the edge list only"""
+    fac = _SHARED.setdefault(kind, FACTORIES[kind]())
+    nodes = sorted({t for e in edges for t in e})
+    if len(nodes) >= 4:
+        gone = nodes[-2]
+        new = TermId.from_curie(nodes[0].prefix + ':' + nodes[0].id + '!')
+        if new not in nodes:
+            try:
+                fac.create_graph([(new if s == gone else s, new if o == gone else o) for s, o in edges])
+            except Exception:
+                pass
+    return fac
+
+
 def observe_case(case):
     edges = [(TermId.from_curie(s), TermId.from_curie(o)) for s, o in case['edges']]
+    _COUNT[0] += 1
     try:
-        g = FACTORIES[case['factory']]().create_graph(edges)
+        fac = used_factory(case['factory'], edges) if _COUNT[0] % 2 == 0 else FACTORIES[case['factory']]()
+        g = fac.create_graph(edges)
     except ValueError:
         return {'created': False, 'results': []}
     out = []
